@@ -184,6 +184,7 @@ type translator struct {
 	errs         []string
 	deferredLits []*fn
 	deferredFns  []deferredCall
+	deferredAfter []deferredCall // desugared deferred calls followed by a deferred unlock in the same body
 }
 
 func (t *translator) errorf(pos token.Pos, format string, args ...any) {
@@ -421,6 +422,13 @@ func (c *fctx) syncMethod(call *ast.CallExpr) (string, ast.Expr, *types.Selectio
 	return "", nil, nil
 }
 
+// isLockCall: is this a Lock/Unlock/RLock/RUnlock call on a sync mutex
+func (c *fctx) isLockCall(call *ast.CallExpr) bool {
+	m, _, _ := c.syncMethod(call)
+
+	return m != ""
+}
+
 func (c *fctx) lockOp(call *ast.CallExpr, deferred bool) (*cmd, bool) {
 	m, recv, s := c.syncMethod(call)
 	if m == "" {
@@ -623,6 +631,87 @@ func (c *fctx) stmts(l []ast.Stmt) *cmd {
 		cs = append(cs, c.stmt(s))
 	}
 	return seq(cs...)
+}
+
+// bodyStmts translates the statement list of a function (or function literal) body. A top-level
+// `defer g(...)` of a function of the module is desugared: g is called at every return of the rest of the body and
+// where the body falls off its end (calls of functions that turn out not to be lock-relevant are pruned later).
+// This is the exact order of Go's LIFO deferred calls as long as no unlock is deferred AFTER it in the same body
+// (a later deferred unlock would run before g): that case is rejected.
+func (c *fctx) bodyStmts(l []ast.Stmt) *cmd {
+	for i, s := range l {
+		d, ok := s.(*ast.DeferStmt)
+		if !ok {
+			continue
+		}
+		if _, isLit := ast.Unparen(d.Call.Fun).(*ast.FuncLit); isLit {
+			continue
+		}
+		if c.isLockCall(d.Call) {
+			continue
+		}
+		k, ok := c.calleeKey(d.Call)
+		if !ok {
+			continue
+		}
+		f, ok := c.t.fnByKey[k]
+		if !ok {
+			continue
+		}
+		before := c.stmts(l[:i])
+		if se, ok := ast.Unparen(d.Call.Fun).(*ast.SelectorExpr); ok {
+			c.walk(se.X)
+		}
+		for _, a := range d.Call.Args {
+			c.walk(a)
+		}
+		pre := c.take()
+		rest := c.bodyStmts(l[i+1:])
+		call := &cmd{op: "Call", n: f.idx, pos: d.Pos()}
+		if rest.has("DeferRel") {
+			c.t.deferredAfter = append(c.t.deferredAfter, deferredCall{f, d.Pos()})
+		}
+
+		return seq(before, pre, rest.atExit(call), call)
+	}
+
+	return c.stmts(l)
+}
+
+// has: does the command contain an operation of this kind
+func (c *cmd) has(op string) bool {
+	if c == nil {
+		return false
+	}
+	if c.op == op {
+		return true
+	}
+	switch c.op {
+	case "Seq", "Alt":
+		return c.a.has(op) || c.b.has(op)
+	case "Loop", "Sw":
+		return c.a.has(op)
+	}
+
+	return false
+}
+
+// atExit puts the call in front of every return
+func (c *cmd) atExit(call *cmd) *cmd {
+	switch c.op {
+	case "Ret":
+		return &cmd{op: "Seq", a: call, b: c}
+	case "Seq":
+		return &cmd{op: "Seq", a: c.a.atExit(call), b: c.b.atExit(call)}
+	case "Alt":
+		return &cmd{op: "Alt", a: c.a.atExit(call), b: c.b.atExit(call)}
+	case "Loop":
+		return &cmd{op: "Loop", a: c.a.atExit(call)}
+	case "Sw":
+		return &cmd{op: "Sw", a: c.a.atExit(call)}
+	}
+
+	return c
 }
 
 func (c *fctx) stmt(s ast.Stmt) *cmd { //nolint
@@ -913,7 +1002,7 @@ func main() {
 	}
 	for _, f := range t.fns {
 		c := &fctx{t: t, p: f.pkg, f: f}
-		body := c.stmts(f.body.List)
+		body := c.bodyStmts(f.body.List)
 		var pre []*cmd
 		for _, n := range f.needs {
 			pre = append(pre, &cmd{op: "Need", n: n})
@@ -987,6 +1076,11 @@ func main() {
 	for _, d := range t.deferredFns {
 		if d.f.rel {
 			t.errorf(d.pos, "deferred call of lock-relevant function %s is not supported", d.f.name)
+		}
+	}
+	for _, d := range t.deferredAfter {
+		if d.f.rel {
+			t.errorf(d.pos, "deferred call of lock-relevant function %s before a deferred unlock in the same body is not supported", d.f.name)
 		}
 	}
 	for _, f := range t.deferredLits {
